@@ -66,10 +66,16 @@ func (c *Calcium) newWorkloadSender(ctx context.Context, ID string, resp chan *t
 	utils.SentryGo(func() {
 		var writer *io.PipeWriter
 		curFile := ""
+		failed := false
 		for data := range sender.buffer {
+			if failed {
+				// keep draining: the producer must never block on a sender that gave up
+				continue
+			}
 			if curFile != "" && curFile != data.Dst {
 				log.Warnf(ctx, "[newWorkloadExecutor] receive different files %s, %s", curFile, data.Dst)
-				break
+				failed = true
+				continue
 			}
 			// ready to send
 			if curFile == "" {
@@ -80,6 +86,9 @@ func (c *Calcium) newWorkloadSender(ctx context.Context, ID string, resp chan *t
 				utils.SentryGo(func(ID, name string, size int64, content io.Reader, uid, gid int, mode int64) func() {
 					return func() {
 						defer wg.Done()
+						// whatever happens to the copy, nobody reads the pipe afterwards:
+						// closing the read side makes pending and later writes fail instead of block
+						defer content.(*io.PipeReader).Close()
 						if err := sender.calcium.withWorkloadLocked(ctx, ID, false, func(ctx context.Context, workload *types.Workload) error {
 							err := errors.WithStack(workload.Engine.VirtualizationCopyChunkTo(ctx, ID, name, size, content, uid, gid, mode))
 							resp <- &types.SendMessage{ID: ID, Path: name, Error: err}
@@ -93,10 +102,12 @@ func (c *Calcium) newWorkloadSender(ctx context.Context, ID string, resp chan *t
 			n, err := writer.Write(data.Chunk)
 			if err != nil || n != len(data.Chunk) {
 				log.Errorf(ctx, err, "[newWorkloadExecutor] send file to engine err, file = %s", curFile)
-				break
+				failed = true
 			}
 		}
-		writer.Close()
+		if writer != nil {
+			writer.Close()
+		}
 	})
 	return sender
 }
